@@ -239,4 +239,11 @@ theorem C12_requiretls_honoured_iff_advertised (s : S) (rest : List (Bytes × By
     rw [mailParams]
     simp only [k1, k2, k3, Bool.false_eq_true, if_false, if_true, he, Bool.not_false]
 
+/-- **C12_caps_depend_on_config_and_tls_only.**  What a connection advertises is a function of the server's configuration and of
+    whether TLS is active — of nothing else the connection has been through (greeting name, authentication, envelope, error count,
+    open transfer, backend script, octets pending): every capability list of a connection in the same TLS state is the same list.
+    (A client that reads the list again, as the go-smtp client does after `Reset`, finds the same extensions.) -/
+theorem C12_caps_depend_on_config_and_tls_only (s s' : S) (hc : s.cfg = s'.cfg) (ht : s.c.tls = s'.c.tls) : caps s = caps s' := by
+  rw [C12_caps_exact, C12_caps_exact, hc, ht]
+
 end SmtpV.Props.C12
